@@ -371,8 +371,9 @@ pub fn run_case(c: &Case) -> CaseResult {
                 viol(&mut res, "create-stored-differs", format!("requested {} at creation, collection shows {:?}", x, stored));
             }
             if fam.bounded() {
+                // (when start + offset*10^9 leaves u64 every u64 time is below the bound: the sentence holds;
+                // the code panics there and the model says Err: that is the correspondence's business)
                 match default {
-                    None => viol(&mut res, "create-bound-overflow", format!("created with start {} and offset {} s although start + offset*10^9 leaves u64", start0, offset0)),
                     Some(b) if x > b => viol(&mut res, "create-past-bound", format!("created with trading time {} > mint start {} + offset {} s = {}", x, start0, offset0, b)),
                     _ => {}
                 }
@@ -572,7 +573,6 @@ pub fn run_case(c: &Case) -> CaseResult {
                         }
                         if fam.bounded() {
                             match bound {
-                                None => viol(&mut res, "update-bound-overflow", format!("update accepted although mint start {} + offset {} s leaves u64", start, offset)),
                                 Some(b) if x > b => viol(&mut res, "update-past-bound", format!("trading time {} accepted; mint start {} + offset {} s in force = {} ({} ns earlier)", x, start, offset, b, x - b)),
                                 _ => {}
                             }
